@@ -22,6 +22,8 @@ enum Rhs {
     Stiff,
     /// smooth problem whose j-th evaluation (1-based) returns NaN (0 = never): drives Newton failures
     NanAt(usize),
+    /// smooth problem that returns NaN from the j-th evaluation on
+    NanFrom(usize),
 }
 
 struct F {
@@ -53,6 +55,7 @@ impl IVP for F {
             Rhs::Smooth => d[0] = x.cos() + 0.5 * y[0],
             Rhs::Stiff => d[0] = -2000.0 * (y[0] - x.cos()),
             Rhs::NanAt(j) => d[0] = if n == j { f64::NAN } else { x.cos() + 0.5 * y[0] },
+            Rhs::NanFrom(j) => d[0] = if n >= j { f64::NAN } else { x.cos() + 0.5 * y[0] },
             Rhs::Script => {
                 // call-indexed: the value depends only on the position inside the current trial
                 if n <= self.pre { d[0] = std::env::var("SCRIPT_PRE").ok().and_then(|v| v.parse().ok()).unwrap_or(1.0); return; }
@@ -190,6 +193,10 @@ impl SolOut for RecB {
         ControlFlag::Continue
     }
 }
+
+/// n identical copies of y' = -2y + sin t
+struct Dup(usize);
+impl IVP for Dup { fn ode(&self, x: f64, y: &[f64], d: &mut [f64]) { for i in 0..self.0 { d[i] = -2.0 * y[i] + x.sin(); } } }
 
 /// Event functions for the handler replay: concrete end-point values per callback, exact zero at
 /// every interior (Brent) probe.
@@ -491,6 +498,35 @@ fn main() {
             }
             let (nfev, njev, st) = match &r { Ok(v) => (v.evals.ode, v.evals.jac, format!("{:?}", v.status)), Err(_) => (0, 0, String::new()) };
             println!("{{\"ok\":{},\"steps\":{},\"status\":\"{}\",\"nfev\":{},\"njev\":{},\"ode_calls\":{},\"jac_calls\":{},\"bad\":[{}]}}", r.is_ok(), so.rows.len(), st, nfev, njev, f.odes.get(), f.jacs.get(), bad.iter().take(5).cloned().collect::<Vec<_>>().join(","));
+        }
+        // probe radaunan K : RADAU (default options, max_steps default) on the smooth problem whose right-hand side is NaN from evaluation K on
+        "radaunan" => {
+            let k: usize = a[2].parse().unwrap();
+            let f = F::new(Rhs::NanFrom(k));
+            let mut so = Rec { cbs: vec![], dense: vec![], bounds: vec![], thetas: vec![], stop_after: 0, flags: vec![], modified_to: 0.0, xout_at: 0.0, calls_at_cb: vec![], had_interp: vec![] };
+            let _ = &mut so;
+            // through solve_ivp with its default (unbounded) step budget: a controller that stops shrinking never returns;
+            // F::ode prints {"hang":true} and exits after 5e6 evaluations
+            let me = match a.get(3).map(|s| s.as_str()) { Some("BDF") => Method::BDF, Some("RK23") => Method::RK23, Some("DOPRI5") => Method::DOPRI5, Some("DOP853") => Method::DOP853, _ => Method::RADAU };
+            let o = Options::builder().method(me).rtol(1e-6).atol(1e-9).build();
+            match solve_ivp(&f, 0.0, 10.0, &[0.5], o) {
+                Ok(s) => println!("{{\"status\":\"{:?}\",\"steps\":{},\"nonfinite_state\":{}}}", s.status, s.t.len(), s.y.iter().any(|v| !v[0].is_finite())),
+                Err(e) => println!("{{\"status\":\"Err({:?})\",\"steps\":0,\"nonfinite_state\":false}}", e),
+            }
+        }
+        // probe duphinit : first accepted step of solve_ivp without first_step for 1 / 2 / 4 identical copies
+        "duphinit" => {
+            let mut out = vec![];
+            for (nm, me) in [("RK23", Method::RK23), ("DOPRI5", Method::DOPRI5), ("BDF", Method::BDF)] {
+                let mut rows = vec![];
+                for n in [1usize, 2, 4] {
+                    let o = Options::builder().method(me.clone()).rtol(1e-6).atol(1e-9).build();
+                    let s = solve_ivp(&Dup(n), 0.0, 2.0, &vec![1.0; n], o).unwrap();
+                    rows.push(format!("{{\"n\":{},\"t1\":{},\"steps\":{}}}", n, js(s.t[1]), s.t.len()));
+                }
+                out.push(format!("\"{}\":[{}]", nm, rows.join(",")));
+            }
+            println!("{{{}}}", out.join(","));
         }
         // probe optindep : solve_ivp (RK4, 250001 fixed steps; RK23 with a tight max_step) with and without dense_output / t_eval, default max_steps:
         //   status, number of accepted steps and final state must not depend on the output options
